@@ -372,22 +372,17 @@ func runF(op string, in M) (M, M) {
 			if e1 == nil {
 				out["direct"] = ser(d)
 			}
-			if len(path) > 0 {
-				pre, e2 := slip10.DeriveKeyFromPath(seed, c, path[:len(path)-1])
-				if e2 == nil {
-					var s *slip10.ExtendedKey
-					s, e2 = pre.DeriveChild(path[len(path)-1])
-					if e2 == nil {
-						out["step"] = ser(s)
-					}
+			// the same key step by step: master key, then one DeriveChild per index (both judged on their own elsewhere)
+			s, e2 := slip10.NewMasterKey(seed, c)
+			for _, idx := range path {
+				if e2 != nil {
+					break
 				}
-				out["step_ok"] = e2 == nil
-			} else {
-				m, e2 := slip10.NewMasterKey(seed, c)
-				out["step_ok"] = e2 == nil
-				if e2 == nil {
-					out["step"] = ser(m)
-				}
+				s, e2 = s.DeriveChild(idx)
+			}
+			out["step_ok"] = e2 == nil
+			if e2 == nil {
+				out["step"] = ser(s)
 			}
 		})
 		return out, M{}
@@ -422,7 +417,9 @@ func TestVerifDriver(t *testing.T) {
 	}
 	if vMode() == "replay" {
 		for _, v := range vReadInputs() {
+			vForce = v.Mode
 			emit(v.Op, v.In)
+			vForce = ""
 		}
 		return
 	}
